@@ -1099,11 +1099,11 @@ first_for_expr:
             }
     |   constant '%' constant
             {
-                if ($3) $$ = $1 % $3; else yyerror("Modulo by zero");
+                if ($3) $$ = lpc_int_mod($1, $3); else yyerror("Modulo by zero");
             }
     |   constant '/' constant
             {
-                if ($3) $$ = $1 / $3; else yyerror("Division by zero");
+                if ($3) $$ = lpc_int_div($1, $3); else yyerror("Division by zero");
             }
     |   '(' constant ')'
             {
@@ -1741,7 +1741,7 @@ add_error:
                             break;
                         }
                         $$ = $1;
-                        $1->v.number /= $3->v.number;
+                        $1->v.number = lpc_int_div($1->v.number, $3->v.number);
                         break;
                     }
                     if ($3->kind == NODE_REAL) {
